@@ -24,7 +24,9 @@ RULE = (
     "note / todo with priority and modify date) in batches of 400 per page and recompiled "
     "(thorough: every suffix; quick: every roll-over neighbourhood + a stride sample); "
     "(alloc) Hypothesis histories of allocate(date) / restart / fast-forward-to-position steps "
-    "over 4 dates against a model counter, with the persisted map compared after every step. "
+    "over 4 dates against a model counter, with the persisted map compared after every step; (machine) the same "
+    "model driven by Hypothesis' stateful mode (a RuleBasedStateMachine with allocate / restart / fast_forward "
+    "rules, 16 seeded runs), a failing rule sequence being saved as an ordinary step-list replay. "
     "Non-trivial = a chunk containing a roll-over (9->A, Z->a, skipped letter, carry, 2->3 "
     "extension) or a history with an allocation after a restart or across a carry; distinct "
     "by SHA-1 of the case."
@@ -252,88 +254,162 @@ def _history(draw):
     return {"steps": steps}
 
 
-def check_alloc(case, rec: Rec) -> None:
-    from zorg.storage.sql._zid_manager import ZIDManager
+class AllocModel:
+    """Model counter beside the real ZIDManager; `apply(step)` raises Violation on disagreement."""
 
-    m = chain()
-    with env.sandbox("vz-c07a-") as zdir:
-        mgr = None
-        idx = {}  # date index -> next chain position
-        handed = set()
-        restarted_since_alloc = True
-        nontriv = False
-        path = zdir / ".zorg" / "next_ids.json"
-        for si, st_ in enumerate(case["steps"]):
-            op = st_["op"]
-            if op == "restart":
-                mgr = None
-                restarted_since_alloc = True
-                continue
-            d = dt.date.fromisoformat(_DATES[st_["date"]])
-            key = d.strftime("%y%m%d")
-            if op == "ff":
-                # move a date's counter forward only (never re-issue)
-                pos = st_["pos"]
-                if pos <= idx.get(key, 0):
-                    continue
-                (zdir / ".zorg").mkdir(exist_ok=True)
-                cur = json.loads(path.read_text()) if path.exists() else {}
-                cur[key] = m[pos]
-                path.write_text(json.dumps(cur, indent=4))
-                idx[key] = pos
-                mgr = None
-                restarted_since_alloc = True
-                continue
-            if mgr is None:
-                with rec.sut("ZIDManager"):
-                    mgr = ZIDManager(zdir)
-            pos = idx.get(key, 0)
-            if pos >= len(m):
-                # every suffix of this date has been handed out: explicit error expected
-                try:
-                    got = mgr.get_next(d)
-                except RuntimeError as e:
-                    if "Ran out of zorg IDs" not in str(e):
-                        raise Violation("exhaustion-error", f"step {si}: {e!r}")
-                    rec.label("exhausted")
-                    continue
-                except BaseException as e:  # noqa: BLE001
-                    raise Violation("exhaustion-error", f"step {si}: {type(e).__name__}: {e}")
-                raise Violation("exhaustion-silent", f"step {si}: allocation #{pos + 1} on {key} returned {got!r}")
+    def __init__(self, zdir, rec):
+        self.zdir, self.rec = zdir, rec
+        self.mgr = None
+        self.idx = {}
+        self.handed = set()
+        self.restarted = True
+        self.nontrivial = False
+        self.path = zdir / ".zorg" / "next_ids.json"
+        self.n = 0
+
+    def apply(self, st_):
+        from zorg.storage.sql._zid_manager import ZIDManager
+
+        m = chain()
+        rec, zdir, path = self.rec, self.zdir, self.path
+        si = self.n
+        self.n += 1
+        op = st_["op"]
+        if op == "restart":
+            self.mgr = None
+            self.restarted = True
+            return
+        d = dt.date.fromisoformat(_DATES[st_["date"]])
+        key = d.strftime("%y%m%d")
+        if op == "ff":
+            pos = st_["pos"]
+            if pos <= self.idx.get(key, 0):
+                return
+            (zdir / ".zorg").mkdir(exist_ok=True)
+            cur = json.loads(path.read_text()) if path.exists() else {}
+            cur[key] = m[pos]
+            path.write_text(json.dumps(cur, indent=4))
+            self.idx[key] = pos
+            self.mgr = None
+            self.restarted = True
+            return
+        if self.mgr is None:
+            with rec.sut("ZIDManager"):
+                self.mgr = ZIDManager(zdir)
+        pos = self.idx.get(key, 0)
+        if pos >= len(m):
             try:
-                got = mgr.get_next(d)
+                got = self.mgr.get_next(d)
             except RuntimeError as e:
-                raise Violation("premature-exhaustion",
-                                f"step {si}: allocation #{pos + 1} of {N_TOTAL} on {key} "
-                                f"(suffix {m[pos]!r} never handed out) raised {e}")
+                if "Ran out of zorg IDs" not in str(e):
+                    raise Violation("exhaustion-error", f"step {si}: {e!r}")
+                rec.label("exhausted")
+                return
             except BaseException as e:  # noqa: BLE001
-                raise Violation(f"crash:get_next:{type(e).__name__}", f"step {si}: {e}")
-            exp = f"{key}#{m[pos]}"
-            if got in handed:
-                raise Violation("duplicate-zid", f"step {si}: {got!r} handed out twice")
-            if got != exp:
-                raise Violation("wrong-zid", f"step {si}: got {got!r}, model says {exp!r}")
-            if not _ZID_RE.match(got) or any(c in _EXCLUDED for c in got[7:]):
-                raise Violation("form", f"step {si}: {got!r}")
-            handed.add(got)
-            idx[key] = pos + 1
-            if restarted_since_alloc and len(handed) > 1:
-                nontriv = True
-                rec.label("alloc-after-restart")
-            restarted_since_alloc = False
-            if pos + 1 < len(m) and (len(m[pos]) != len(m[pos + 1]) or m[pos][:-1] != m[pos + 1][:-1]):
-                nontriv = True
-                rec.label("carry")
-            if pos == 2600:
-                rec.label("2->3 extension")
-            # persisted state == model (what a restarted manager would read)
-            disk = json.loads(path.read_text())
-            for k2, p2 in idx.items():
-                if p2 < len(m) and k2 in disk and disk[k2] != m[p2]:
-                    raise Violation("persisted-state", f"step {si}: next_ids[{k2}]={disk[k2]!r}, model {m[p2]!r}")
-                if p2 < len(m) and k2 not in disk:
-                    raise Violation("persisted-state", f"step {si}: next_ids lacks {k2}")
-        rec.nontrivial = nontriv
+                raise Violation("exhaustion-error", f"step {si}: {type(e).__name__}: {e}")
+            raise Violation("exhaustion-silent", f"step {si}: allocation #{pos + 1} on {key} returned {got!r}")
+        try:
+            got = self.mgr.get_next(d)
+        except RuntimeError as e:
+            raise Violation("premature-exhaustion",
+                            f"step {si}: allocation #{pos + 1} of {N_TOTAL} on {key} "
+                            f"(suffix {m[pos]!r} never handed out) raised {e}")
+        except BaseException as e:  # noqa: BLE001
+            raise Violation(f"crash:get_next:{type(e).__name__}", f"step {si}: {e}")
+        exp = f"{key}#{m[pos]}"
+        if got in self.handed:
+            raise Violation("duplicate-zid", f"step {si}: {got!r} handed out twice")
+        if got != exp:
+            raise Violation("wrong-zid", f"step {si}: got {got!r}, model says {exp!r}")
+        if not _ZID_RE.match(got) or any(c in _EXCLUDED for c in got[7:]):
+            raise Violation("form", f"step {si}: {got!r}")
+        self.handed.add(got)
+        self.idx[key] = pos + 1
+        if self.restarted and len(self.handed) > 1:
+            self.nontrivial = True
+            rec.label("alloc-after-restart")
+        self.restarted = False
+        if pos + 1 < len(m) and (len(m[pos]) != len(m[pos + 1]) or m[pos][:-1] != m[pos + 1][:-1]):
+            self.nontrivial = True
+            rec.label("carry")
+        if pos == 2600:
+            rec.label("2->3 extension")
+        disk = json.loads(path.read_text())
+        for k2, p2 in self.idx.items():
+            if p2 < len(m) and k2 in disk and disk[k2] != m[p2]:
+                raise Violation("persisted-state", f"step {si}: next_ids[{k2}]={disk[k2]!r}, model {m[p2]!r}")
+            if p2 < len(m) and k2 not in disk:
+                raise Violation("persisted-state", f"step {si}: next_ids lacks {k2}")
+
+
+def check_alloc(case, rec: Rec) -> None:
+    with env.sandbox("vz-c07a-") as zdir:
+        model = AllocModel(zdir, rec)
+        for st_ in case["steps"]:
+            model.apply(st_)
+        rec.nontrivial = model.nontrivial
+
+
+def check_machine(case, rec: Rec) -> None:
+    """The same histories driven by Hypothesis' stateful mode (RuleBasedStateMachine)."""
+    import os
+    import shutil
+    import tempfile
+
+    import hypothesis
+    from hypothesis import HealthCheck, settings
+    from hypothesis.stateful import RuleBasedStateMachine, invariant, rule, run_state_machine_as_test
+
+    sp = _special_positions()
+    last = {"log": None, "runs": 0, "nontrivial": 0}
+
+    class ZidMachine(RuleBasedStateMachine):
+        def __init__(self):
+            super().__init__()
+            self.dir = Path(tempfile.mkdtemp(prefix="vz-c07m-", dir=env._TMP_ROOT))
+            self.model = AllocModel(self.dir, rec)
+            self.log = []
+            last["log"] = self.log
+            last["runs"] += 1
+
+        def _do(self, st_):
+            self.log.append(st_)
+            self.model.apply(st_)
+
+        @rule(date=st.integers(0, 3))
+        def allocate(self, date):
+            self._do({"op": "alloc", "date": date})
+
+        @rule()
+        def restart(self):
+            self._do({"op": "restart"})
+
+        @rule(date=st.integers(0, 3), pos=st.one_of(st.sampled_from(sp), st.integers(0, N_TOTAL - 1)),
+              back=st.integers(0, 3))
+        def fast_forward(self, date, pos, back):
+            self._do({"op": "ff", "date": date, "pos": max(0, pos - back)})
+
+        @invariant()
+        def handed_out_are_unique_and_well_formed(self):
+            assert all(_ZID_RE.match(z) for z in self.model.handed)
+
+        def teardown(self):
+            if self.model.nontrivial:
+                last["nontrivial"] += 1
+            shutil.rmtree(self.dir, ignore_errors=True)
+
+    seed = int(os.environ.get("VERIF_SEED", "1") or "1") * 1000 + case["shard"]
+    try:
+        run_state_machine_as_test(
+            hypothesis.seed(seed)(ZidMachine),
+            settings=settings(max_examples=case["examples"], stateful_step_count=case["steps"], deadline=None,
+                              database=None, report_multiple_bugs=False, suppress_health_check=list(HealthCheck)))
+    except Violation as v:
+        raise Violation(v.clause, v.detail, case={"steps": list(last["log"] or [])}, part="alloc")
+    rec.sub_evals += max(0, last["runs"] - 1)
+    rec.info["machine_runs"] = last["runs"]
+    rec.nontrivial = last["nontrivial"] > 0
+    rec.label("stateful-machine")
 
 
 def check_full_walk(case, rec: Rec) -> None:
@@ -384,6 +460,8 @@ def parts(tier):
         HypPart(name="alloc", check=check_alloc, strategy=_history,
                 examples=150 if tier == "quick" else 3000,
                 seconds=40 if tier == "quick" else 600),
+        EnumPart(name="machine", check=check_machine, exhaustive=False,
+                 items=lambda: [{"shard": i, "examples": 40 if tier == "quick" else 600, "steps": 30} for i in range(16)]),
     ]
     if tier == "thorough":
         ps.append(EnumPart(name="full-walk", check=check_full_walk,
